@@ -16,6 +16,31 @@ ASSUMPTIONS = [
 DROPPED = ['docstrings', '_LOGGER/logging calls', 'with lc.LogContext (transparent)', 'decorators (schema.schema -> '
            'source of input type invariants)']
 
+
+
+def bounded_replay(hook, pid, what, n_quick, n_thorough):
+    """Bounded stand-in (never counted as proved): the property's oracle on N deterministic random inputs of the
+    real function, run under /venv python."""
+    def run(tier, seed):
+        import json, os, subprocess
+        root = os.path.dirname(os.path.dirname(os.path.abspath(__file__)))
+        repo = os.environ.get('VERIF_REPO', '/repo')
+        n = n_quick if tier == 'quick' else n_thorough
+        env = dict(os.environ, PYTHONPATH=os.path.join(repo, 'lib', 'python'), VERIF_PROP=pid, VERIF_SEED=str(seed))
+        p = subprocess.run(['/venv/bin/python', os.path.join(root, 'replay', hook), '--bounded', str(n)],
+                           capture_output=True, text=True, timeout=1800, env=env)
+        out = {'kind': 'bounded', 'function': what, 'bound': '%d random inputs, fixed seed' % n, 'violations': []}
+        for line in p.stdout.splitlines():
+            if line.startswith('FAILING-INPUT '):
+                out['violations'].append('bounded:' + what)
+                out['failing_input'] = json.loads(line[len('FAILING-INPUT '):])
+        if p.returncode != 0 or not p.stdout.strip():
+            from core import CheckerError
+            raise CheckerError('bounded stand-in %s failed to run: %s' % (hook, p.stderr[-400:]))
+        return out
+    return run
+
+
 S = 'treadmill.scheduler:'
 SCHED_CORE = [S + x for x in (
     'IdentityGroup.acquire', 'IdentityGroup.release', 'IdentityGroup.adjust',
@@ -144,14 +169,20 @@ PROPS = {
         'contract_modules': ['scheduler_core', 'c06_queue'],
         'functions': [S + 'utilization', S + 'Allocation.priv_utilization_queue'],
         'replay': 'c06.py',
+        'extra': [('bounded:Allocation.utilization_queue',
+                   bounded_replay('c06.py', 'C06', 'Allocation.utilization_queue', 3000, 60000))],
         'assumptions': [
             'decided for one allocation (Allocation.priv_utilization_queue): each instance exactly once, priority '
             'order (running before pending, then first come), priority 0 => infinite utilisation, rank rule '
             '(UNPLACED beyond max_utilization - 1, boosted when the utilisation before the instance is negative), '
             'and clause 5 in the statement\'s words (cumulative demand within the reservation => boosted rank)',
-            'NOT decided: the merge over sub-allocations (Allocation.utilization_queue: heapq.merge of the '
-            'children\'s queues, re-scoring against total_reserved), hence clauses 1/3/4 across allocations and '
-            'loader.find_assignment; Cell.schedule_alloc consumes that queue under an assumed contract',
+            'NOT proved: the merge over sub-allocations (Allocation.utilization_queue: heapq.merge of the '
+            'children\'s queues, re-scoring against total_reserved), hence clauses 1/3/4 across allocations; '
+            'BOUNDED stand-in: the clauses of the statement (each instance once, ranks non-decreasing, per-allocation '
+            'priority order, priority 0 last within a rank, rank rule per own allocation) are evaluated on the merged '
+            'queue of 3000 (quick) / 60000 (thorough) deterministic random allocation trees of depth <= 3; the '
+            'utilisation values recomputed by the merge are not in the statement and are not checked; '
+            'Cell.schedule_alloc consumes the queue under an assumed contract',
             'sorted(key=) is a dependency contract (a permutation of the input, non-decreasing in the key); '
             'instance names are atoms ordered by an arbitrary total order; equal global_order would make heapq '
             'compare Application objects (TypeError) - not reachable inside priv_utilization_queue',
